@@ -87,7 +87,7 @@ func (v *Vue) interpolateToWriter(ctx VueContext, w io.Writer, input string) err
 				// Not a path into the data: it may still be an expression without spaced
 				// operators (a literal, !flag, n>3), as accepted by v-if
 				val = nil
-				if res, evalErr := v.exprEval.Eval(expr, ctx.stack.EnvMap()); evalErr == nil {
+				if res, evalErr := v.exprEval.Eval(expr, v.exprEnv(ctx, expr)); evalErr == nil {
 					val = res
 				}
 			}
